@@ -125,6 +125,7 @@ class StubsBase:
             "wraps": Stub(lambda ctx, f: Stub(lambda ctx2, g: self._wraps(f, g), "wraps-apply"), "functools.wraps"),
             "lru_cache": Stub(lambda ctx, *a, **k: Stub(lambda ctx2, f: f, "lru_cache-apply"), "functools.lru_cache"),
             "reduce": Stub(self.f_reduce, "functools.reduce"),
+            "partial": Stub(lambda ctx, f, *pa, **pk: Stub(lambda ctx2, *a, **k: self.interp.call(f, tuple(pa) + tuple(a), {**pk, **k}, ctx2), "partial-apply"), "functools.partial"),
             "singledispatch": Stub(lambda ctx, f: f, "functools.singledispatch"),
         })
         self.ext["functools.singledispatch"] = self.ext["functools"].attrs["singledispatch"]
